@@ -202,11 +202,13 @@ def near_miss(t, rng, ctx="val", depth=0):
         ents = list(t.params["entries"])
         if not ents:
             return t, None
-        i = rng.randrange(len(ents)); ty, eid, act = ents[i]; ents[i] = (ty, eid + 1000003, act)
+        i = rng.randrange(len(ents)); ty, eid, act = ents[i]; ents[i] = (ty, (eid + 1000003) % (1 << 64), act)
+        if len(set(e[1] for e in ents)) != len(ents):
+            return t, None
         return tg.table(ents, hash_kind=t.params["hash_kind"]), "table entry id changed"
     if c == "tab_hash":
         hk = t.params["hash_kind"]
-        nh = ("hash", (hk[1] + 1) if hk[0] == "hash" else 12345)
+        nh = ("hash", (hk[1] + 1) % (1 << 64) if hk[0] == "hash" else 12345)
         return tg.table(list(t.params["entries"]), hash_kind=nh), "table hash changed"
     if c == "tab_delete":
         ents = list(t.params["entries"]); act = [i for i, e in enumerate(ents) if e[2]]
